@@ -1,5 +1,5 @@
-From RsdnsModel Require Import Base Cursor Names Labels Header Tracker RData Reader Script.
-From RsdnsModel.Proofs Require Import CursorSafe LabelsSound Views RandAccess.
+From RsdnsModel Require Import Base GenReader Cursor Names Labels Header Tracker RData Reader Script Iter.
+From RsdnsModel.Proofs Require Import CursorSafe LabelsSound Views RandAccess Flavours IterAgree.
 From RsdnsModel.Properties Require Import C08.
 Open Scope N_scope.
 Check (C08_name_types_agree : forall msg c, read_name msg Heap c = read_name msg Inline c).
@@ -8,4 +8,30 @@ Check (C08_read_implies_skip : forall msg nk c t c',
 Check (C08_random_access_view : forall msgs w i msg r mk ty,
   reachable msgs w -> getN (w_msgs w) i = Some msg -> getN (w_readers w) i = Some (Some r) ->
   rd_data_at msg ty mk r = rdata_pure msg ty mk /\ rd_bytes_at msg mk r = raw_pure msg mk).
-Print Assumptions C08_name_types_agree. Print Assumptions C08_read_implies_skip. Print Assumptions C08_random_access_view.
+Check (C08_header_flavours_agree : forall msg nk r r' n mk,
+  cwf msg (r_cur r) -> rd_header_n msg nk r = (r', Ok (OHeaderN n mk)) ->
+  rd_marker msg r = (r', Ok (OMarker mk)) /\
+  exists nref, rd_header_ref msg r = (r', Ok (OHeaderRef nref mk)) /\ pos nref = m_off mk /\
+    exists c', read_name msg nk nref = Ok (n, c')).
+Check (C08_iterator_item_is_reader_item : forall msg f r it it' x,
+  same_state r it -> cwf msg (ri_cur it) ->
+  records_read_impl msg (S f) it = (it', Ok (RItem x)) ->
+  (forall c1 ty cl ttl rdlen, (do* _ <- lift_c (skip_name msg); do* ty <- lift (c_u16 msg); do* cl <- lift (c_u16 msg);
+      do* ttl <- lift (c_u32 msg); do* rdlen <- lift (c_u16 msg); mret (ty, cl, ttl, rdlen)) (ri_cur it) = (c1, Ok (ty, cl, ttl, rdlen)) ->
+      iter_skip_unknown (class_defined cl) (type_defined ty) = false) ->
+  exists r1 mk r2,
+    rd_header_n msg Inline r = (r1, Ok (OHeaderN (rr_name x) mk)) /\
+    m_rtype mk = rr_type x /\ m_rclass mk = rr_class x /\ m_ttl mk = rr_ttl x /\ m_section mk = rr_section x /\
+    rd_data msg (rr_type x) mk r1 = (r2, Ok (ORData (rr_data x))) /\
+    r_cur r2 = ri_cur it' /\ r_tr r2 = ri_tr it').
+Check (C08_iterator_skip_is_reader_skip : forall msg f r it c1 ty cl ttl rdlen,
+  same_state r it ->
+  (do* _ <- lift_c (skip_name msg); do* ty <- lift (c_u16 msg); do* cl <- lift (c_u16 msg);
+   do* ttl <- lift (c_u32 msg); do* rdlen <- lift (c_u16 msg); mret (ty, cl, ttl, rdlen)) (ri_cur it) = (c1, Ok (ty, cl, ttl, rdlen)) ->
+  iter_skip_unknown (class_defined cl) (type_defined ty) = true ->
+  forall s tr1 c2 tr2, next_section (ri_tr it) (pos (ri_cur it)) = (tr1, Some s) ->
+  c_skip c1 rdlen = Ok c2 -> section_read tr1 s (pos c2) = Ok tr2 ->
+  records_read_impl msg (S f) it = records_read_impl msg f (mkRecIt c2 tr2 (ri_err it)) /\
+  exists r1 mk r2, rd_marker msg r = (r1, Ok (OMarker mk)) /\ m_rtype mk = ty /\ m_rclass mk = cl /\
+    rd_skip_data mk r1 = (r2, Ok OUnit) /\ r_cur r2 = c2 /\ r_tr r2 = tr2 /\ r_done r2 = false).
+Print Assumptions C08_name_types_agree. Print Assumptions C08_read_implies_skip. Print Assumptions C08_random_access_view. Print Assumptions C08_header_flavours_agree. Print Assumptions C08_iterator_item_is_reader_item. Print Assumptions C08_iterator_skip_is_reader_skip.
